@@ -3,7 +3,7 @@ import re
 import sqlite3
 from urllib.parse import quote
 
-from pv import dbdump, histrun
+from pv import conc, dbdump, histrun, monitors
 from pv.client import Req
 
 META = {
@@ -17,9 +17,10 @@ META = {
             'newline, unicode look-alikes, standard names); one evaluation = '
             'one post-request check of the traits / resource_classes tables; '
             'distinct = (operation, name class, status, sync phase)',
-    'floors': {'restarts': 10, 'partial_resyncs': 3, 'standard_refusals': 5,
+    'floors': {'concurrent_schedules': 50, 'restarts': 10, 'partial_resyncs': 3, 'standard_refusals': 5,
                'creates_existing': 5, 'custom_classes_created': 5},
-    'assumptions': ['SQLite backend', 'sequential requests',
+    'assumptions': ['SQLite backend', 'sequential histories + transaction-'
+                    'level interleavings of racing creations/deletions',
                     'os-traits / os-resource-classes as installed in /venv'],
     'shard_timeout': 3000,
 }
@@ -28,10 +29,69 @@ CUSTOM_RX = re.compile(r'^CUSTOM_[A-Z0-9_]+\Z')
 RP = '99999999-9999-4999-8999-999999999999'
 
 
+CONC = conc.scenarios_names()
+
+
 def plan(tier, seed, scale):
-    return histrun.plan_seeds(tier, seed, scale, 200, 4000,
-                              13 if tier == 'quick' else 100,
-                              extra={'steps': 50 if tier == 'quick' else 80})
+    shards = histrun.plan_seeds(
+        tier, seed, scale, 200, 4000, 13 if tier == 'quick' else 100,
+        extra={'steps': 50 if tier == 'quick' else 80})
+    for sh in conc.plan_scenarios(len(CONC), tier, seed, per=2):
+        sh['conc'] = True
+        shards.append(sh)
+    return shards
+
+
+def conc_shard(spec, res):
+    """racing creations / deletions: every committed state keeps the table
+    invariants, nothing ends as a 5xx, every name answered 2xx on creation
+    exists afterwards"""
+    import os_resource_classes as orc
+    import os_traits
+    std_traits = list(os_traits.get_traits())
+    std_classes = list(orc.STANDARDS)
+
+    def per_state(d, wit):
+        sub = type('R', (), {})()
+        check_state(d, None, res, std_traits, std_classes,
+                    'concurrent [%s] %s' % (wit['transaction_order'],
+                                            wit['scenario']), wit)
+        # (referential integrity of associations is C08's business; the race
+        # DELETE /traits/X vs PUT .../traits [X] leaves a dangling row only
+        # because SQLite does not enforce the foreign key that MySQL and
+        # PostgreSQL enforce - engine-specific, counted, not judged)
+        if any(k == 'rptrait-trait' for k, _ in monitors.c08_state(d)):
+            res.count('fk_unenforced_dangling_trait_association_seen')
+
+    def at_end(d0, final, reqs, results, wit):
+        for n, r in results.items():
+            if r is None or r.status >= 500:
+                res.violation(
+                    'C19|5xx|concurrent|%s' % wit['scenario'],
+                    '[%s] request %s answered %s (%s)' % (
+                        wit['transaction_order'], n,
+                        r.status if r is not None else None,
+                        r.escaped if r is not None else None), wit)
+                continue
+            req = reqs[n]
+            if 200 <= r.status < 300 and req['method'] in ('PUT', 'POST') \
+                    and '/resource_classes' in req['path'] and \
+                    req['version'] != '1.2':
+                name = (req['body'] or {}).get('name') or \
+                    req['path'].rsplit('/', 1)[-1]
+                other_deleted = any(
+                    q['method'] == 'DELETE' and q['path'].endswith(name) and
+                    results[m] is not None and results[m].status == 204
+                    for m, q in reqs.items())
+                if name not in final.classes and not other_deleted:
+                    res.violation(
+                        'C19|created-class-missing|concurrent|%s'
+                        % wit['scenario'],
+                        '[%s] %s answered %d for %s but the class does not '
+                        'exist' % (wit['transaction_order'], n, r.status,
+                                   name), wit)
+    conc.run_invariants('C19', CONC, spec, res, per_state=per_state,
+                        at_end=at_end, max_schedules=60)
 
 
 def name_pool(rng, kind):
@@ -101,6 +161,8 @@ def check_state(d, raw_con, res, std_traits, std_classes, what, wit,
 
 
 def run_shard(spec, res):
+    if spec.get('conc'):
+        return conc_shard(spec, res)
     import os_resource_classes as orc
     import os_traits
     std_traits = list(os_traits.get_traits())
